@@ -10,12 +10,12 @@ build || { echo "baseline build failed"; tail -20 /tmp/verify_build_$$.log; exit
 for d in _seeded/*/; do
   name=$(basename "$d"); log="$d/verify.log"; : > "$log"
   echo "== $name" | tee -a "$log"
-  LD_LIBRARY_PATH=build/src sh "$d/build.sh" >"$d/verify_demo_without.txt" 2>&1; rc0=$?
+  LD_LIBRARY_PATH=build/src bash "$d/build.sh" >"$d/verify_demo_without.txt" 2>&1; rc0=$?
   echo "demo without change: exit $rc0" | tee -a "$log"
   git apply "$d/patch.diff" || { echo "patch does not apply" | tee -a "$log"; continue; }
   if build; then
     ctest --test-dir build -j8 --timeout 900 2>&1 | grep -E "tests passed|tests failed|Failed|\*\*\*" | tee -a "$log"
-    LD_LIBRARY_PATH=build/src sh "$d/build.sh" >"$d/verify_demo_with.txt" 2>&1; rc1=$?
+    LD_LIBRARY_PATH=build/src bash "$d/build.sh" >"$d/verify_demo_with.txt" 2>&1; rc1=$?
     echo "demo with change: exit $rc1" | tee -a "$log"
   else
     echo "build with change FAILED" | tee -a "$log"; tail -5 /tmp/verify_build_$$.log | tee -a "$log"
